@@ -1,6 +1,7 @@
 package main
 
 import (
+	"go/ast"
 	"go/token"
 	"go/types"
 	"path/filepath"
@@ -12,8 +13,41 @@ import (
 	"golang.org/x/tools/go/callgraph/cha"
 	"golang.org/x/tools/go/packages"
 	"golang.org/x/tools/go/ssa"
+	"golang.org/x/tools/go/ast/astutil"
 	"golang.org/x/tools/go/ssa/ssautil"
 )
+
+// guardAt renders the conditions of the if statements that enclose pos inside its function
+// (outermost first; "!(c)" for an else branch): the condition under which a store executes is
+// part of what the inventory says about it.
+func guardAt(pkgs []*packages.Package, pos token.Pos) string {
+	if !pos.IsValid() {
+		return ""
+	}
+	for _, p := range pkgs {
+		for _, f := range p.Syntax {
+			if f.Pos() > pos || pos >= f.End() {
+				continue
+			}
+			path, _ := astutil.PathEnclosingInterval(f, pos, pos)
+			var conds []string
+			for i := len(path) - 1; i >= 0; i-- {
+				ifs, ok := path[i].(*ast.IfStmt)
+				if !ok {
+					continue
+				}
+				switch {
+				case ifs.Body != nil && ifs.Body.Pos() <= pos && pos < ifs.Body.End():
+					conds = append(conds, exprStr(ifs.Cond))
+				case ifs.Else != nil && ifs.Else.Pos() <= pos && pos < ifs.Else.End():
+					conds = append(conds, "!("+exprStr(ifs.Cond)+")")
+				}
+			}
+			return strings.Join(conds, " && ")
+		}
+	}
+	return ""
+}
 
 // model types: the objects of a network that several goroutines may share
 var modelTypes = map[string]bool{
@@ -185,7 +219,12 @@ func storeSites(pkgs ...*packages.Package) []site {
 
 	seen := map[site]bool{}
 	var res []site
-	add := func(fn *ssa.Function, kind, target string) {
+	add := func(fn *ssa.Function, kind, target string, pos token.Pos) {
+		if g := guardAt(pkgs, pos); g != "" {
+			target += " | if " + g
+		} else {
+			target += " | unconditional"
+		}
 		name := fn.Name()
 		if fn.Signature.Recv() != nil {
 			name = namedOf(fn.Signature.Recv().Type()) + "." + fn.Name()
@@ -217,24 +256,24 @@ func storeSites(pkgs ...*packages.Package) []site {
 				switch x := ins.(type) {
 				case *ssa.Store:
 					if o, ok := owner(x.Addr, 0); ok && !fresh(x.Addr) {
-						add(fn, "store", o)
+						add(fn, "store", o, x.Pos())
 					}
 				case *ssa.MapUpdate:
 					if o, ok := owner(x.Map, 0); ok {
-						add(fn, "map-update", o)
+						add(fn, "map-update", o, x.Pos())
 					}
 				case *ssa.Call:
 					c := x.Call
 					if bi, ok := c.Value.(*ssa.Builtin); ok && bi.Name() == "delete" {
 						if o, ok := owner(c.Args[0], 0); ok {
-							add(fn, "map-delete", o)
+							add(fn, "map-delete", o, x.Pos())
 						}
 					}
 					if f := c.StaticCallee(); f != nil && f.Pkg != nil {
 						pp := f.Pkg.Pkg.Path()
 						if (pp == "slices" || pp == "sort" || strings.HasSuffix(pp, "x/exp/slices")) && strings.HasPrefix(f.Name(), "Sort") && len(c.Args) > 0 {
 							if o, ok := owner(c.Args[0], 0); ok {
-								add(fn, "in-place-sort", o)
+								add(fn, "in-place-sort", o, x.Pos())
 							}
 						}
 					}
